@@ -20,7 +20,8 @@ SOC = "litex/soc/integration/soc.py"
 EXPLANATION = ("FHDL IR of wishbone.Arbiter/Decoder/InterconnectShared/Crossbar extracted from the AST with the literal "
                "_layout unrolled; index agreement between gating select and gated port decided on the symbolic loop index; "
                "support sets of request/ack/err/data drivers; instantiation arguments of the compositions.")
-TECHNIQUE = "AST-extracted FHDL IR + index-agreement and support-set rules + instantiation-argument flow"
+TECHNIQUE = ("AST-extracted FHDL IR + index-agreement and support-set rules + instantiation-argument flow + abstract interpr"
+             "etation of the interconnect constructors on token lists")
 
 
 def _layout(ctx):
